@@ -14,6 +14,7 @@ import sys
 VERIF = os.path.dirname(os.path.dirname(os.path.abspath(__file__)))
 sys.path.insert(0, VERIF)
 from mutants.corpus import M  # noqa: E402
+from mutants.equiv import E  # noqa: E402
 
 SCRATCH = "/var/tmp/scratch/mutrepo"
 
@@ -35,6 +36,7 @@ def main():
     only = None
     props_filter = None
     run_tests = False
+    equiv = "--equiv" in sys.argv
     args = sys.argv[1:]
     i = 0
     while i < len(args):
@@ -51,7 +53,10 @@ def main():
             i += 1
     res = []
     env = dict(os.environ, CARGO_NET_OFFLINE="true")
-    for mu in M:
+    pool = M
+    if equiv:
+        pool = [dict(x, props=["C%02d" % i for i in range(1, 21)]) for x in E]
+    for mu in pool:
         if only and only not in mu["id"]:
             continue
         if props_filter and not (set(mu["props"]) & props_filter):
@@ -100,6 +105,13 @@ def main():
             det[prop] = "DETECTED %s" % sorted({v["rule"] for v in vs}) if vs else "MISSED"
         res.append((mu["id"], tests or "compiles", det))
         print(mu["id"], tests or "compiles", det)
+    if equiv:
+        alarms = [r for r in res if any(str(v).startswith("DETECTED") for v in r[2].values())]
+        print("\n%d equivalent edits, %d raise an alarm" % (len(res), len(alarms)))
+        for r in alarms:
+            print("  FALSE ALARM:", r[0], {k: v for k, v in r[2].items() if str(v).startswith("DETECTED")})
+        sync()
+        return
     missed = [r for r in res if any(v == "MISSED" for v in r[2].values())]
     print("\n%d mutants, %d with a miss" % (len(res), len(missed)))
     for r in missed:
